@@ -10,6 +10,9 @@ from ..core import same, HarnessError, StepBudget, snap, snap_same
 ID = 'C02'
 TITLE = 'join = relational inner/cross join, xor = anti-join, both terminate'
 LEVEL = 'exploration'
+TECHNIQUE = 'runtime monitoring: nested-loop relational reference model (multiset of rows) + sys.monitoring line-step budget for termination + operand snapshots + repeat-after-mutation sequences'
+LEVEL_TEXT = 'Held on the table pairs explored, incl. NaN keys of different identity, many-to-many keys, every lcols/rcols spelling and mode; termination is decided on logical steps (linear budget), not wall clock. A check says held on K observed executions, never verified.'
+LEVEL_NOTE = 'Trusted: the nested-loop model and its key equality (taken from the statement), StepBudget. Bool keys and xor with zero keys are outside the conservation law.'
 RULE = ('random table pairs (0-8 rows/side quick, up to 40 thorough; key alphabets of 2-5 values so many-to-many is the norm; 0-3 key columns; '
         'keys among None/int/float/NaN objects of several identities/str/datetime mixed within a column), every lcols/rcols spelling and mode; '
         'non-trivial = both sides non-empty and (a duplicate key on each side or a NaN/None/mixed-type key); distinct = canonical hash of the case term')
